@@ -298,8 +298,16 @@ class Runner(object):
         known_hit = {}
         max_samples = 6
         slow = []
+        last_progress = time.time()
         for case, res in self.run_cases(cases):
             n_cases += 1
+            if os.environ.get('VERIF_PROGRESS') and \
+                    time.time() - last_progress > 60:
+                last_progress = time.time()
+                print(f'[{self.prop} {self.tier}] {n_cases} cases done, '
+                      f'{evaluations} evaluations, '
+                      f'{time.time() - t0:.0f}s', file=sys.stderr,
+                      flush=True)
             slow.append((res.get('_wall', 0.0), case_label(case)))
             slow = sorted(slow, reverse=True)[:5]
             evaluations += int(res.get('evaluations', 1))
